@@ -143,7 +143,7 @@ def eval_case(case):
             st = K.schema_term(schema)
             try:
                 resp = ('ROkFields', K.fields_term(K.interpret(schema, case['data'], case.get('kw', {}))))
-            except K.KsyError:
+            except (K.KsyError, RecursionError):
                 resp = ('RErr', ('EStream',), None)
             return (sexp.to_sexp('request', ('RKsyInterp', st, kwt, case['data'])), None, resp)
         except R.Unsupported as ex:
